@@ -7,28 +7,38 @@ MANIFEST = {
     "text": "Lean theorems over ALL histories of a transcription M of libcoap's server-session bookkeeping (session table keyed by remote "
             "address+port / local port / protocol, reference count with its holders, idle eviction, timeout reclamation, teardown order, "
             "allocation ledger): live sessions are a partial injective map from peers (peer_session_functional_injective), ref = number of "
-            "holders and holders always point to live sessions (ref_eq_holders, no_free_while_referenced), exactly one session-new and at "
+            "holders and holders always point to live sessions (ref_eq_holders, no_free_while_referenced) — an observer entry is a holder "
+            "with the reference/release discipline of coap_add_observer, coap_delete_observer* and the RST branch of coap_dispatch: replacing "
+            "a subscription by one with a new token changes no reference count (reregistration_keeps_refcount), a Reset that cancels one "
+            "observation under its temporary reference drops exactly one reference (rst_releases_exactly_one) —, exactly one session-new and at "
             "most one session-deleted event per session (one_new_one_del_per_session), the oldest idle session is evicted at the idle limit "
             "(oldest_idle_evicted_at_limit), after coap_free_context at any point the ledger is empty (teardown_ledger_empty, "
             "ledger_never_bad); a Lean-verified monitor ledgerOk (ledgerOk_iff) judges the REAL allocation trace recorded through wrapped "
-            "coap_malloc_type/free_type.  M is tied to the compiled code by exact trace equality on generated histories from 1..50 peers "
-            "on a real server context with virtual clock and scripted network; the property is also read off the implementation's own output.",
+            "coap_malloc_type/free_type.  M is tied to the compiled code by exact trace equality (session->ref, last_rx_tx and the "
+            "notifications each peer received, after EVERY event) on generated histories from 1..50 peers on a real server context with "
+            "virtual clock and scripted network; the property is also read off the implementation's own output (among others: the "
+            "reference counts of all live sessions add up to the number of subscriptions + queued messages + async entries + application "
+            "references that exist).",
     "note": "Partial: 'nothing used after release' and leaks of objects not allocated through coap_malloc_type are ASan/LSan observations on "
             "the histories run; idle_reclaimed_after_timeout is proved for one step of the reclamation loop (_partial) and checked on every "
-            "I/O pass by the oracle.  UDP endpoints only in the differential runs (D9).  Trusted: Lean kernel (+ propext, Classical.choice, "
+            "I/O pass by the oracle.  UDP endpoints only in the differential runs (D9); notifications are NON (both observable resources "
+            "are NOTIFY_NON_ALWAYS), confirmable notifications are outside the generated alphabet.  Trusted: Lean kernel (+ propext, Classical.choice, "
             "Quot.sound), harness + allocator wrap + oracle, the hand transcription M (checked on the histories run).",
     "design_ref": "DESIGN.md §4 C12, design/C12.md",
 }
 LEAN_MODULES = ["CoapVerif.Props.C12"]
 NAMESPACE = "Coap.C12"
 REQUIRED_THEOREMS = ["peer_session_functional_injective", "one_new_one_del_per_session", "ref_eq_holders",
-                     "no_free_while_referenced", "idle_reclaimed_after_timeout_partial", "oldest_idle_evicted_at_limit",
+                     "no_free_while_referenced", "reregistration_keeps_refcount", "rst_releases_exactly_one", "idle_reclaimed_after_timeout_partial", "oldest_idle_evicted_at_limit",
                      "teardown_ledger_empty", "ledger_never_bad", "ledgerOk_iff", "same_peer_same_session"]
 RULE = ("one line = one whole history on a fresh real server context with two UDP endpoints: requests from 1..50 peers "
         "(peers P and P+25 share the remote address/port and differ in the local port only; groups share the remote IP or the "
-        "remote port), observe register/deregister on two resources, async registration/free, server CON (ping) in the send "
-        "queue answered by RST or retransmitted to exhaustion, application reference/release, session disconnect, resource "
-        "deletion, max_idle_sessions / session_timeout settings, virtual-time jumps on both sides of every timeout "
+        "remote port), observe register/deregister on two observable resources with explicit token (3 variants) and query (2 "
+        "variants: another cache key), including re-registration of the same resource/query under a NEW token and Observe:1 with "
+        "a known / unknown token, 'resource changed' (coap_resource_notify_observers) with the NON notifications sent in the next "
+        "I/O pass, peer RST / empty ACK for the k-th last notification it received on its session (fresh and stale ids), async "
+        "registration/free, server CON (ping) in the send queue answered by RST or retransmitted to exhaustion, application "
+        "reference/release, session disconnect, resource deletion (also while dirty), max_idle_sessions / session_timeout settings, virtual-time jumps on both sides of every timeout "
         "(retransmission deadlines, session_timeout-1/0/+1), I/O steps, context teardown at any point (always at the end); "
         "non-trivial = distinct history that created at least one session and has at least 4 events")
 TRUSTED_BASE = ["Lean 4.33 kernel; axioms allowed: propext, Classical.choice, Quot.sound (audited per theorem each run)",
@@ -79,20 +89,39 @@ def gen_history(rng, big=False):
         toks.append("m%d" % rng.choice([1, 1, 2, 2, 3, 4, 5, 8, 10, 0]))
     n = rng.choice([4, 8, 12, 20, 30, 45, 60, 80]) if not big else rng.choice([120, 200, 300])
     hot = pool[: max(1, len(pool) // 3)]
-    for _ in range(n):
+
+    def obs(kind, p, k=None, v=None, q=None):
+        """observe register/deregister token: resource k, token variant v, query variant q (defaults are omitted)"""
+        k = rng.randrange(2) if k is None else k
+        v = (0 if rng.random() < 0.55 else rng.randrange(1, 3)) if v is None else v
+        q = (0 if rng.random() < 0.8 else 1) if q is None else q
+        return "%s%d.%d" % (kind, p, k) + (".%d.%d" % (v, q) if q else ".%d" % v if v else "")
+
+    base = len(toks)
+    while len(toks) - base < n:
         p = rng.choice(hot) if rng.random() < 0.5 else rng.choice(pool)
         c = rng.random()
-        if c < 0.24: toks.append("r%d" % p)
-        elif c < 0.33: toks.append("o%d.%d" % (p, rng.randrange(2)))
-        elif c < 0.37: toks.append("d%d.%d" % (p, rng.randrange(2)))
-        elif c < 0.42: toks.append("a%d" % p)
-        elif c < 0.45: toks.append("f%d" % p)
-        elif c < 0.52: toks.append("q%d" % p)
-        elif c < 0.56: toks.append("k%d" % p)
+        if c < 0.19: toks.append("r%d" % p)
+        elif c < 0.28: toks.append(obs("o", p))
+        elif c < 0.31: toks.append(obs("d", p))
+        elif c < 0.335:
+            # the same resource and query under two different tokens (token replacement in coap_add_observer)
+            k, q, v = rng.randrange(2), int(rng.random() < 0.2), rng.randrange(3)
+            toks += [obs("o", p, k, v, q), obs("o", p, k, (v + 1 + rng.randrange(2)) % 3, q)]
+        elif c < 0.385:
+            # resource changed, notifications go out, a peer resets / acknowledges one
+            toks.append("c%d" % rng.randrange(2))
+            if rng.random() < 0.7: toks.append("i")
+            if rng.random() < 0.6: toks.append("%s%d.%d" % ("t" if rng.random() < 0.85 else "y", p, 0 if rng.random() < 0.7 else rng.randrange(4)))
+        elif c < 0.41: toks.append("%s%d.%d" % ("t" if rng.random() < 0.8 else "y", p, 0 if rng.random() < 0.6 else rng.randrange(4)))
+        elif c < 0.45: toks.append("a%d" % p)
+        elif c < 0.475: toks.append("f%d" % p)
+        elif c < 0.535: toks.append("q%d" % p)
+        elif c < 0.57: toks.append("k%d" % p)
         elif c < 0.63: toks.append("+%d" % p)
-        elif c < 0.69: toks.append("-%d" % p)
-        elif c < 0.72: toks.append("x%d" % p)
-        elif c < 0.73: toks.append("D%d" % rng.randrange(2))
+        elif c < 0.685: toks.append("-%d" % p)
+        elif c < 0.715: toks.append("x%d" % p)
+        elif c < 0.725: toks.append("D%d" % rng.randrange(2))
         elif c < 0.86:
             t = timeout * 1000
             toks.append("T%d" % rng.choice([1, 7, 100, 999, 1000, 1999, 2000, 2001, 3999, 4000, 8000, 16000, 32000, 62000,
@@ -138,7 +167,7 @@ def split_line(s):
             for r in R[1:].split(","):
                 i, _, rest = r.partition("=")
                 a, _, b = rest.partition("@")
-                refs[i] = (int(a), int(b))
+                refs[i] = (int(a), int(b.partition("#")[0]))
         i0, i1 = I[1:].split("/")
         segs.append((tok, outcome, evs, refs if refs is not None else {}, (int(i0), int(i1)), tuple(int(x) for x in L[1:].split("/"))))
     return segs, fields
@@ -173,7 +202,7 @@ def oracle(inp, impl):
         if c == "T": now += int(tok[1:])
         elif c == "s": timeout = int(tok[1:]) or 300
         elif c == "m": max_idle = int(tok[1:])
-        creator = peer_of(tok) if c in "rodak" else None
+        creator = peer_of(tok) if c in "rodakty" else None
         # events: exactly one NEW and one DEL per session, in a sensible order
         dels_here = []
         for e in evs:
@@ -213,6 +242,12 @@ def oracle(inp, impl):
         if not final and set(refs) != set(live):
             return "live sessions %s do not match the session-new/deleted events %s (event %d, %s)" % (
                 sorted(refs), sorted(live), k, tok)
+        # references = holders, on the implementation's own numbers: every holder in this alphabet is a subscription, a
+        # queued message, an async entry or a reference the application took, and each holds exactly one reference
+        if not final and sum(r for r, _ in refs.values()) != sum(lv[1:]):
+            return ("the reference counts of the live sessions add up to %d but %d subscriptions + %d queued messages + %d async "
+                    "entries + %d application references = %d holders exist (event %d, %s)" % (
+                        sum(r for r, _ in refs.values()), lv[1], lv[2], lv[3], lv[4], sum(lv[1:]), k, tok))
         # eviction at the idle limit: the oldest idle session of that endpoint goes
         if creator is not None and any(e.startswith("N") for e in evs) and max_idle > 0:
             ep = creator // 25
@@ -226,7 +261,7 @@ def oracle(inp, impl):
                     return "idle limit %d reached (%d idle) but the oldest idle session was not the one evicted: deleted %s (event %d, %s)" % (
                         max_idle, len(idle_before), victims, k, tok)
         # reclamation: after an I/O pass no unreferenced session is older than the timeout
-        if c in "irodak" and not outcome.startswith("skip"):
+        if c in "irodakty" and not outcome.startswith("skip"):
             for i, (ref, last) in refs.items():
                 if ref == 0 and last + timeout * 1000 <= now:
                     return "session %s idle since %d still alive at %d after an I/O pass (timeout %ds) (event %d, %s)" % (
@@ -234,8 +269,8 @@ def oracle(inp, impl):
         if final:
             if seen_new != seen_del:
                 return "after coap_free_context sessions %s never got a session-deleted event" % sorted(seen_new - seen_del)
-            if lv != (0, 0, 0):
-                return "after coap_free_context %d sessions / %d subscriptions / %d queue nodes are still allocated" % lv
+            if lv[:3] != (0, 0, 0):
+                return "after coap_free_context %d sessions / %d subscriptions / %d queue nodes are still allocated" % lv[:3]
         prev_refs = refs
         prev_live = dict(live)
     if not segs or segs[-1][0][0] != "F":
@@ -300,7 +335,7 @@ def nontrivial(c):
 
 def classify(c):
     n = len(c["input"].split()) - 1
-    peers = {t[1:].split(".")[0] for t in c["input"].split()[1:] if t[0] in "rodafqk+-x"}
+    peers = {t[1:].split(".")[0] for t in c["input"].split()[1:] if t[0] in "rodafqk+-xty"}
     return "ev<=%d peers<=%d" % (next(b for b in (8, 20, 45, 80, 10 ** 6) if n <= b), next(b for b in (1, 3, 8, 20, 50) if len(peers) <= b))
 
 
